@@ -417,6 +417,42 @@ def orphan_named_input_scenario(variant: int = 0):
     return found, stats, summary
 
 
+def postponed_cleanup_scenario(variant: int = 0):
+    """A step is dropped in a build that does not clean (`--no-clean`, or restricted to a target); the next plain
+    build has nothing to run and must catch up on the cleanup: the orphaned output and its node go."""
+    from simdirector import A, FifoSchedule, Project, SimDirector
+
+    keep = A.step("keep", inp=["src/a.txt"], out=["out/keep.txt"])
+    v1 = [A.static("src/a.txt"), A.step("P", inp=["src/a.txt"], out=["out/deep/x.txt"], vol=["out/deep/x.log"]), keep]
+    v2 = [A.static("src/a.txt"), keep]
+    project = Project(scripts={"./plan.py": v1}, files={"src/a.txt": "A1\n"})
+    found: list[Finding] = []
+    stats: dict[str, int] = {}
+
+    def count(key, n=1):
+        stats[key] = stats.get(key, 0) + n
+
+    model = ck.CModel(static={"src/a.txt": "A1\n"}, steps=[ck.CStep(name="keep", inp=["src/a.txt"], out=["out/keep.txt"])])
+    truth = ck.Truth()
+    truth.sources = {"src/a.txt", "plan.py"}
+    truth.ever_output = {"out/deep/x.txt": "out", "out/deep/x.log": "vol", "out/keep.txt": "out"}
+    summary = []
+    second = [{"clean": False}, {"targets": ["out/keep.txt"]}][variant % 2]
+    with SimDirector(project, seed=1) as sim:
+        for i, (plan, kw) in enumerate([(v1, {}), (v2, second), (v2, {})]):
+            sim.set_script("./plan.py", plan)
+            res = sim.build(njob=1, schedule=FifoSchedule(), **kw)
+            truth.note_build(res.runs)
+            summary.append([i + 1, res.status, str(res.returncode), res.commands, res.tags("REMOVE"), kw])
+            if res.status != "done" or res.returncode.value != 0:
+                return found, stats, summary
+        db = ck.read_db_of(sim)
+        case = {"scenario": "postponed-cleanup", "variant": variant, "builds": summary,
+                "reproduce": f"harness/props/c07.py: postponed_cleanup_scenario({variant})"}
+        check_after_build(found, count, case, model, truth, sim, db, ck.snapshot(sim.root))
+    return found, stats, summary
+
+
 def rerole_scenario():
     """A volatile output that is re-declared as a regular output of an optional step which is no
     longer needed: v1 `prod` (optional, out p.txt, vol p.log) is needed by `use`; v2 re-declares
@@ -620,6 +656,12 @@ async def search(ctx):
             ctx.finding(f)
         ctx.stats.count("scenario-orphan-named-input")
         ctx.stats.count("scenario-orphan-named-input:builds-completed", len(summary))
+    for variant in range(2):
+        found, stats, summary = await asyncio.to_thread(postponed_cleanup_scenario, variant)
+        for f in found:
+            ctx.finding(f)
+        ctx.stats.count("scenario-postponed-cleanup")
+        ctx.stats.count("scenario-postponed-cleanup:builds-completed", len(summary))
     found, stats, summary = await asyncio.to_thread(f6_scenario, ctx.seed)
     for f in found:
         ctx.finding(f)
